@@ -10,7 +10,6 @@ package main
 
 import (
 	"fmt"
-	"os"
 	"strings"
 
 	"verif/h/kit"
@@ -149,7 +148,7 @@ func feed(c *mc.Ctx, n *sk.Node, chain *sk.Chain, kind string, salt int, who str
 func run(c *mc.Ctx, u mc.Unit) {
 	p := u.Params.(params)
 	dir := sk.ScratchDir()
-	defer os.RemoveAll(dir)
+	defer kit.RemoveScratch(dir)
 	a := sk.Open(p.Store, dir)
 	defer a.Close()
 	chain := sk.NewChain(p.Store)
